@@ -85,12 +85,16 @@ def sonrs():
     return d
 
 
-def profile_response(urls, dtprofup, code=0, closing=True, extra_finame="Fixture Bank"):
+def profile_response(urls, dtprofup, code=0, closing=True, extra_finame="Fixture Bank", sonrs_dtprofup=None):
     """urls: {"BANKMSGSET": url, "CREDITCARDMSGSET": url, "INVSTMTMSGSET": url} (any subset);
     code 0 -> PROFRS with DTPROFUP; code 1 -> 'up to date' (no PROFRS); other -> error status, no PROFRS."""
     U = M.universe()
     ofx = {"cls": "OFX", "kw": {}, "list": []}
-    ofx["kw"]["signonmsgsrsv1"] = {"cls": "SIGNONMSGSRSV1", "kw": {"sonrs": sonrs()}, "list": []}
+    so = sonrs()
+    if sonrs_dtprofup is not None:
+        # the sign-on response has a DTPROFUP of its own (document order: before the one of PROFRS)
+        so["kw"]["dtprofup"] = sonrs_dtprofup
+    ofx["kw"]["signonmsgsrsv1"] = {"cls": "SIGNONMSGSRSV1", "kw": {"sonrs": so}, "list": []}
     trn = {"cls": "PROFTRNRS", "kw": {"trnuid": ["str", "1"], "status": {"cls": "STATUS", "kw": {"code": ["int", code], "severity": ["tok", "INFO" if code in (0, 1) else "ERROR"]}, "list": []}}, "list": []}
     if code == 0:
         prof = M.minimal(U["PROFRS"])
